@@ -106,7 +106,8 @@ def _case(draw):
     if fn == "sum_except_batch":
         shape = draw(st.lists(st.integers(0, 5), min_size=1, max_size=4))
         return {"fn": fn, "shape": shape, "k": draw(st.integers(0, len(shape))), "seed": seed,
-                "dtype": "float64" if dtype == "int64" else dtype}
+                "dtype": draw(st.sampled_from(["float64" if dtype == "int64" else dtype, "float32", "float64", "int64", "int32", "uint8", "bool"]))}
+        # (masks are uint8/bool tensors and counting their entries is a sum: torch.sum's own promotion rules are the specification)
     if fn == "searchsorted":
         nb = draw(st.integers(1, 9))
         gaps = draw(st.lists(st.floats(1e-3, 2.0), min_size=nb, max_size=nb))
@@ -282,12 +283,18 @@ def run_case(case):
         return res
 
     if fn == "sum_except_batch":
-        x = _mk(case["shape"], case["seed"], case.get("dtype", "float32"), ints=True)
+        dt_ = case.get("dtype", "float32")
+        if dt_ in ("uint8", "bool", "int32", "int64"):
+            x = _mk(case["shape"], case["seed"], "float64", ints=True).abs().mul(28 if dt_ == "uint8" else 1).to(getattr(torch, dt_))
+        else:
+            x = _mk(case["shape"], case["seed"], dt_, ints=True)
         before = _bits(x)
         k = case["k"]
         out = U.sum_except_batch(x, k)
         axes = tuple(range(k, len(case["shape"])))
         ref = x.numpy().sum(axis=axes) if axes else x.numpy()
+        if dt_ in ("uint8", "bool", "int32", "int64") and axes:
+            ref = x.numpy().astype(np.int64).sum(axis=axes)
         if tuple(out.shape) != tuple(case["shape"][:k]):
             res.fail("wrong_shape", "sum_except_batch", "shape %s, want %s (batch dims must be preserved)" % (
                 tuple(out.shape), tuple(case["shape"][:k])), ndim=len(case["shape"]), k=k)
